@@ -528,7 +528,8 @@ class Fun(Item):
     def parse_edit(self, edit_data):
         rules = []
         for prop in edit_data['rules'].split('\n'):
-            rules.append({'prop': prop})
+            if prop.strip():
+                rules.append({'prop': prop})
         edit_data['rules'] = rules
         self.parse(edit_data)
 
@@ -644,6 +645,8 @@ class Inductive(Item):
     def parse_edit(self, edit_data):
         rules = []
         for rule in edit_data['rules'].split('\n'):
+            if not rule.strip():
+                continue
             name, prop = [s.strip() for s in rule.split(':', 1)]
             rules.append({'name': name, 'prop': prop})
         edit_data['rules'] = rules
@@ -841,9 +844,11 @@ class Datatype(Item):
         }
 
     def parse_edit(self, edit_data):
-        T = parser.parse_type(edit_data['type'])
+        T = parser.parse_type(edit_data['type'], check_type=False)
         constrs = []
         for constr_decl in edit_data['constrs'].split('\n'):
+            if not constr_decl.strip():
+                continue
             constr = parser.parse_ind_constr(constr_decl)
             constr['type'] = str(TFun(*(constr['type'] + [T])))
             constrs.append(constr)
